@@ -20,7 +20,7 @@ REPO = os.environ.get('GLV_REPO', '/repo')
 BUILD = os.path.join(VERIF, 'build')
 GLFACTS = os.path.join(BUILD, 'bin', 'glfacts')
 GLFACTS_SRC = os.path.join(VERIF, 'tool', 'glfacts.cc')
-EXTRA_UNITS = [os.path.join(VERIF, 'fixtures', 'nn_inst.cpp')]
+EXTRA_UNITS = [os.path.join(VERIF, 'fixtures', 'nn_inst.cpp'), os.path.join(VERIF, 'fixtures', 'hdr_inst.cpp')]
 
 
 class AnalysisBroken(Exception):
